@@ -28,7 +28,9 @@ PALETTE = {
     "acc1": [(("a", 0), ("a", 1)), (("a", 2), ("a", 1)), (("a", 0), ("a", 3)), (("iv",), ("a", 1)), (("iva", 2), ("k", 7)),
              (("a", 0), ("ivk", 3)), (("ivk", 4), ("prev+", 1)), (("lck", 3), ("a", 1)), (("lc",), ("iva", 0)),
              # results of the most recent loop with carried values at this level (fall back to arguments elsewhere)
-             (("res", 0), ("res", 1)), (("res", 1), ("a", 3))],
+             (("res", 0), ("res", 1)), (("res", 1), ("a", 3)),
+             # a value computed earlier in an enclosing block by a "def" statement
+             (("a", 0), ("d",)), (("d",), ("a", 1))],
     "acc2": [(("a", 0), ("a", 1), ("k", 5)), (("a", 3), ("a", 1), ("k", 5)), (("iv",), ("a", 1), ("a", 2))],
     "rocc1": [(("a", 0), ("a", 1), ("a", 2), ("a", 3)), (("a", 0), ("a", 3), ("a", 2), ("a", 3)), (("a", 2), ("a", 1), ("a", 2), ("a", 1)),
               (("iv",), ("a", 1), ("a", 2), ("a", 3)), (("a", 0), ("a", 1), ("a", 2), ("ivk", 5))],
@@ -64,6 +66,7 @@ class Render:
         self.prev = None
         self.last_state = {}  # accelerator -> SSA name of the setup result that is certainly still in effect here
         self.results = [[]]  # per open block: results of the most recent loop with carried values
+        self.defs = [None]  # per open block: a value computed by a "def" statement in that block
 
     def fresh(self, p="v"):
         self.n += 1
@@ -84,6 +87,11 @@ class Render:
             r = self.fresh("p")
             self.emit(f"{r} = arith.addi {self.prev}, %a{v[1]} : i32", ind)
             return r
+        if k == "d":
+            for name in reversed(self.defs):
+                if name is not None:
+                    return name
+            return "%a2"
         if k == "res":
             rs = self.results[-1] if self.results else []
             return rs[v[1]] if v[1] < len(rs) else f"%a{v[1] + 1}"
@@ -206,10 +214,10 @@ class Render:
             self.emit(f"scf.for {iv} = {lb} to {ub} step {stp} {{", ind)
             self.ivs.append(iv)
             self.accs.append(None)
-            self.results.append([])
+            self.results.append([]); self.defs.append(None)
             for b in body:
                 self.stmt(b, ind + 1)
-            self.results.pop()
+            self.results.pop(); self.defs.pop()
             self.accs.pop()
             self.ivs.pop()
             self.emit("}", ind)
@@ -220,10 +228,10 @@ class Render:
             self.emit(f"{res} = scf.for {iv} = {lb} to {ub} step {stp} iter_args({acc} = %a0) -> (i32) {{", ind)
             self.ivs.append(iv)
             self.accs.append(acc)
-            self.results.append([])
+            self.results.append([]); self.defs.append(None)
             for b in body:
                 self.stmt(b, ind + 1)
-            self.results.pop()
+            self.results.pop(); self.defs.pop()
             c = self.fresh("ivc")
             self.emit(f"{c} = arith.index_cast {iv} : index to i32", ind + 1)
             n = self.fresh("n")
@@ -245,10 +253,10 @@ class Render:
             self.emit(f"{r1}, {r2} = scf.for {iv} = {lb} to {ub} step {stp} iter_args({x} = %a0, {y} = %a1) -> (i32, i32) {{", ind)
             self.ivs.append(iv)
             self.accs.append(x)
-            self.results.append([])
+            self.results.append([]); self.defs.append(None)
             for b in body:
                 self.stmt(b, ind + 1)
-            self.results.pop()
+            self.results.pop(); self.defs.pop()
             c = self.fresh("ivc")
             self.emit(f"{c} = arith.index_cast {iv} : index to i32", ind + 1)
             n1 = self.fresh("n")
@@ -264,7 +272,7 @@ class Render:
             _, j, tb, eb = s
             before_if = dict(self.last_state)
             self.emit(f"scf.if %c{j}b {{", ind)
-            self.results.append([])
+            self.results.append([]); self.defs.append(None)
             for b in tb:
                 self.stmt(b, ind + 1)
             if eb is not None:
@@ -273,7 +281,7 @@ class Render:
                 self.results[-1] = []
                 for b in eb:
                     self.stmt(b, ind + 1)
-            self.results.pop()
+            self.results.pop(); self.defs.pop()
             self.emit("}", ind)
         elif k == "call":
             self.emit("func.call @ext() : () -> ()", ind)
@@ -283,6 +291,11 @@ class Render:
                       'TailCallKind = #llvm.tailcallkind<none>}> : () -> ()', ind)
         elif k == "callnone":
             self.emit("func.call @ext() {accfg.effects = #accfg.effects<none>} : () -> ()", ind)
+        elif k == "def":
+            # a value computed at this point of the block (used by later configurations, also inside nested regions)
+            r = self.fresh("d")
+            self.emit(f"{r} = arith.addi %a{s[1] % 4}, %a{(s[1] + 1) % 4} : i32", ind)
+            self.defs[-1] = r
         elif k == "use":
             v = self.value(s[1], ind)
             self.emit(f'"test.op"({v}) : (i32) -> ()', ind)
@@ -402,6 +415,10 @@ def random_prog(rnd, size, depth, accs, pal_limit, bounds_kinds, in_loop=False):
                             random_prog(rnd, inner - ts, depth - 1, accs, pal_limit, bounds_kinds, in_loop)))
             left -= inner + 1
         else:
+            if rnd.random() < 0.06:
+                out.append(("def", rnd.randrange(4)))
+                left -= 1
+                continue
             at = atoms(accs, in_loop, pal_limit, relaunch=True)
             cfgs = [a for a in at if a[0] == "cfg"]
             out.append(rnd.choice(cfgs) if rnd.random() < 0.7 else rnd.choice(at))
@@ -454,6 +471,13 @@ def program_set(tier, seed, want_calls=True):
             for p3 in range(3):
                 add((("if", 0, (("cfg", "acc1", p1),), None), ("cfg", "acc1", p2), ("cfg", "acc1", p3)))
                 add((("if", 1, (("cfg", "acc1", p1),), (("cfg", "acc1", p3),)), ("cfg", "acc1", p2), ("cfg", "acc1", p3)))
+    # two conditionals in sequence with a value computed between them that one branch of the second one uses
+    for p1 in range(3):
+        for pa in range(3):
+            for pd in (11, 12):
+                for c2 in (0, 1):
+                    add((("if", 0, (("cfg", "acc1", p1),), None), ("def", 1), ("if", c2, (("cfg", "acc1", pa),), (("cfg", "acc1", pd),))))
+                    add((("cfg", "acc1", p1), ("if", 0, (("cfg", "acc1", pa),), None), ("def", 2), ("if", c2, (("cfg", "acc1", pd),), (("cfg", "acc1", pa),))))
     # a loop carrying two values next to the accelerator state; both results feed a configuration behind the loop
     for bk in ("args", "k05s2", "k42"):
         for p1 in range(2):
